@@ -145,7 +145,7 @@ func runC18(c *Ctx) {
 						chk(x, x.Map, x.Key, "update")
 					case *ssa.Call:
 						if CalleeName(x.Common()) == "builtin:delete" {
-							chk(x, x.Common().Args[0], x.Common().Args[1], "delete")
+							chk(x, ArgK(x, 0), ArgK(x, 1), "delete")
 						}
 					}
 				}
@@ -211,7 +211,7 @@ func runC18(c *Ctx) {
 					}
 				case *ssa.Call:
 					if CalleeName(x.Common()) == "p2p.newPeerInfo" {
-						ex := ff.Term(x.Common().Args[0])
+						ex := ff.Term(ArgK(x, 0))
 						if ex.String() == "-1" {
 							// fresh entry without expiry: must not be on the ban edge only
 							continue
@@ -250,7 +250,7 @@ func runC18(c *Ctx) {
 			sf := factsOf(sweep)
 			n := 0
 			for _, call := range AllCallsDeep(sweep) {
-				if CalleeName(call.Common()) != "builtin:delete" || !strings.Contains(T(call.Common().Args[0]).String(), "peerScore") {
+				if CalleeName(call.Common()) != "builtin:delete" || !strings.Contains(T(ArgK(call, 0)).String(), "peerScore") {
 					continue
 				}
 				n++
@@ -292,7 +292,7 @@ func runC18(c *Ctx) {
 		c.Require("C18.R10 ban-disconnects", FuncKey(peerBan), p.Pos(peerBan.Pos()), "banPeer disconnects on every non-error path", path == nil, pathStr(path))
 		// banPeer penalises with the full threshold
 		for _, s := range CallsIn(peerBan, "(*p2p.connectionGater).addPenalty") {
-			t := T(s.Call.Common().Args[2])
+			t := T(ArgK(s.Call, 2))
 			mv, _ := p.constValue("pkg/p2p", "MaxPenaltyScore")
 			c.Require("C18.R10 ban-disconnects", FuncKey(peerBan)+": score", p.InstrPos(s.Call), "banPeer applies MaxPenaltyScore at once", t.String() == mv, t.String())
 		}
@@ -305,7 +305,7 @@ func runC18(c *Ctx) {
 					continue
 				}
 				n++
-				a := T(s.Call.Common().Args[1])
+				a := T(ArgK(s.Call, 1))
 				ok := !needs || (a.Op == "extract" && a.Args[0].Op == "call" && strings.HasSuffix(a.Args[0].Sym, "multiaddr.NewMultiaddr") && strings.Contains(a.Args[0].String(), `"/p2p/"`))
 				c.Require("C18.R10 penalty-address-has-peer-id", FuncKey(s.Fn)+" ⇒ "+FuncKey(target), p.InstrPos(s.Call),
 					"the multiaddr carries the /p2p/<id> component that the callee parses to disconnect the peer", ok, "address: "+a.String())
